@@ -122,17 +122,10 @@ Proof.
     rewrite get_del_other by lia. apply B; assumption.
 Qed.
 
+Lemma get_record_state st id : snd (get_record st id) = st.
+Proof. unfold get_record. destruct (get id (recs st)) as [r|]; [destruct (live (now st) r)|]; reflexivity. Qed.
 Lemma R_get_record st h id : R st h -> R (snd (get_record st id)) h.
-Proof.
-  intros (N & A & B). unfold get_record. destruct (get id (recs st)) as [r|] eqn:G; [|split; [exact N | split; assumption]].
-  destruct (live (now st) r) eqn:L; cbn [snd]; [split; [exact N | split; assumption]|].
-  unfold R, with_recs; cbn [recs now]. split; [apply NoDup_del; exact N|]. split.
-  - intros k r' H. destruct (Z.eq_dec k id) as [->|Hne]; [rewrite get_del_same in H; discriminate|].
-    rewrite get_del_other in H by exact Hne. apply A. exact H.
-  - intros k r' H L'. destruct (Z.eq_dec k id) as [->|Hne].
-    + apply A in G. rewrite G in H. injection H as <-. congruence.
-    + rewrite get_del_other by exact Hne. apply B; assumption.
-Qed.
+Proof. intros H. rewrite get_record_state. exact H. Qed.
 
 Lemma R_sweep st h : R st h -> R (snd (sweep st)) h.
 Proof.
